@@ -271,3 +271,106 @@ pub fn field_sweep_base(base: &[u8], visit: &mut impl FnMut(Vec<u8>)) {
         }
     }
 }
+
+// ------------------------------------------------------------------------------------------
+// pairwise special values: every pair of fields of a layout, each set to each of its special values
+// (0, 1, max, max-1, sentinels / class values; all values for fields of up to 3 bits), the rest random.
+// A decoder that makes one field's value depend on another's ("status 15 of a SART", "data dropped
+// when both coordinates are unavailable") shows here without anyone having to guess the pair.
+
+pub fn specials(f: &FieldExp) -> Vec<u64> {
+    let m = mask(f.width);
+    let mut v: Vec<u64> = if f.width <= 3 { (0..=m).collect() } else { vec![0, 1, m, m - 1] };
+    if let Hint::Sentinels(s) = &f.hint {
+        v.extend(s.iter().take(8).map(|x| x & m));
+    }
+    if let Hint::Text(_) = f.hint {
+        v = vec![0, m];
+    }
+    v.sort();
+    v.dedup();
+    v
+}
+
+pub fn pairwise_specials(t: u8, len: usize, part: Option<u64>, reps: usize, mix: &mut crate::util::Mix, mut visit: impl FnMut(Vec<u8>)) {
+    let mk = |mix: &mut crate::util::Mix| {
+        let mut b = mix.bytes(len);
+        set_bits(&mut b, 0, 6, t as u64);
+        if let Some(p) = part {
+            set_bits(&mut b, 38, 2, p);
+        }
+        b
+    };
+    let probe = mk(mix);
+    let fields: Vec<FieldExp> = match refdecode(&probe) {
+        RefMsg::Msg(d) => d.fields.into_iter().filter(|f| f.width > 0 && f.width <= 64 && f.path != "message_type" && !(part.is_some() && f.path == "message_part")).collect(),
+        _ => return,
+    };
+    for i in 0..fields.len() {
+        for j in i + 1..fields.len() {
+            let (fi, fj) = (&fields[i], &fields[j]);
+            // overlapping spans (model_serial vs unit_model_code/serial_number) are one field twice
+            if fi.start < fj.start + fj.width && fj.start < fi.start + fi.width {
+                continue;
+            }
+            for vi in specials(fi) {
+                for vj in specials(fj) {
+                    for _ in 0..reps {
+                        let mut b = mk(mix);
+                        set_bits(&mut b, fi.start, fi.width, vi);
+                        set_bits(&mut b, fj.start, fj.width, vj);
+                        visit(b);
+                    }
+                }
+            }
+        }
+    }
+}
+
+/// the (type, length, part) shapes the pairwise sweep visits
+pub fn pairwise_shapes() -> Vec<(u8, usize, Option<u64>)> {
+    let mut v = Vec::new();
+    for &t in layout::SUPPORTED.iter() {
+        let lens = layout::standard_lengths(t);
+        // the longest specified shape has all optional parts; for the variable ones also the shortest
+        let mut pick: Vec<usize> = vec![*lens.last().unwrap()];
+        if matches!(t, 7 | 13 | 15 | 16 | 20) {
+            pick.push(lens[0]);
+        }
+        if matches!(t, 6 | 8 | 12 | 14 | 17) {
+            pick = vec![lens[1.min(lens.len() - 1)]];
+        }
+        for len in pick {
+            if t == 24 {
+                v.push((t, len.max(21), Some(0)));
+                v.push((t, len.max(21), Some(1)));
+            } else {
+                v.push((t, len, None));
+            }
+        }
+    }
+    v
+}
+
+/// Payload inputs carried by one sentence on a parser that has first processed a generated history.
+pub fn payload_inputs_after(types: Vec<u8>, focus: Prop) -> impl Strategy<Value = Input> {
+    (plan(5), crate::gen::sentence::adversarial_events(8), prop::bool::weighted(0.4), any::<u8>()).prop_map(move |(p, evs, odd, idsel)| {
+        let bytes = realise(&p, &types, LenMode::Standard, focus);
+        let (chars, fill) = if bytes.is_empty() { (b"0".to_vec(), 0) } else { armor::armor_bytes(&bytes) };
+        let prefix: Vec<crate::engine::Line> = evs.iter().map(crate::gen::sentence::render_ev).collect();
+        // the sequence id the parser is most likely to have kept: that of the last fragment seen
+        let last_id = evs.iter().rev().find_map(|e| match e {
+            crate::gen::sentence::Ev::Frag { id, .. } => Some(*id),
+            _ => None,
+        });
+        let id = match (last_id, idsel % 4) {
+            (Some(i), 0..=2) => i,
+            (_, _) => Some(idsel % 3),
+        };
+        if odd {
+            Input::SentAfter { prefix, n: 0, k: 1, id, chars, fill }
+        } else {
+            Input::SentAfter { prefix, n: 1, k: 1, id: if idsel & 16 == 0 { None } else { id }, chars, fill }
+        }
+    })
+}
